@@ -794,6 +794,9 @@ class Manager:
         # TODO: Refactor this method.
 
         value = None
+        # Events fired by this step of the handler are effects of the event
+        # just as those fired by its first step (see _fire and _dispatcher)
+        self._currently_handling = event
         try:
             value = next(task)
             if isinstance(value, CallValue):
@@ -846,6 +849,7 @@ class Manager:
             elif value is not None:
                 event.value.value = value
         except StopIteration:
+            self._currently_handling = None
             event.waitingHandlers -= 1
             self.unregisterTask((event, task, parent))
 
@@ -875,6 +879,7 @@ class Manager:
                 self.fire(event.child('failure', event, err), *event.channels)
 
             self.fire(exception(*err, handler=None, fevent=event))
+            self._currently_handling = None
 
             # The failed generator has finished as well
             event.waitingHandlers -= 1
@@ -882,6 +887,8 @@ class Manager:
                 self.registerTask((event, parent, None))
             elif event.waitingHandlers == 0:
                 self._eventDone(event, err)
+        finally:
+            self._currently_handling = None
 
     def tick(self, timeout=-1):
         """
@@ -899,8 +906,14 @@ class Manager:
         """
         # process tasks
         if self._tasks:
-            for task in self._tasks.copy():
-                self.processTask(*task)
+            # Like in _flush(): events fired by the tasks come from the thread running the loop
+            old_flushing = self._flushing_thread
+            try:
+                self._flushing_thread = current_thread()
+                for task in self._tasks.copy():
+                    self.processTask(*task)
+            finally:
+                self._flushing_thread = old_flushing
 
         if self._running:
             self.fire(generate_events(self._lock, timeout), '*')
